@@ -175,7 +175,7 @@ impl Property for C05 {
     }
     fn budget(tier: Tier) -> u64 {
         match tier {
-            Tier::Quick => 150_000,
+            Tier::Quick => 500_000,
             Tier::Thorough => 4_000_000,
         }
     }
